@@ -1,7 +1,7 @@
 (* RandProofs.v — C18: random generation over a scripted word stream refines its Z-level
    specification (SpecRand.v), stays within the requested bounds, and bounded sampling returns
    the first candidate below the bound. *)
-From BigNum Require Import Base BaseLemmas AddSub AddSubProofs Sign SpecSign SignProofs Rand SpecRand.
+From BigNum Require Import Base BaseLemmas SrcLit AddSub AddSubProofs Sign SpecSign SignProofs Rand SpecRand.
 Open Scope Z_scope.
 
 Definition words (s : list Z) : Prop := Forall word s.
@@ -486,21 +486,21 @@ Qed.
 Lemma mag_ienc z : mag (ienc z) = enc (Z.abs z). Proof. reflexivity. Qed.
 
 (** the common tail: `lbound + BigInt::from(gen_biguint_below(m))` *)
-Lemma irange_tail p lo m s : addsub_ok p = true -> icanon lo -> canon m -> words s ->
-  (do x <- gen_biguint_below m s; let '(n, r) := x in do v <- iadd p lo (ifrom_u n); Ret (v, r))
+Lemma irange_tail sp p lo m s : sign_ok sp = true -> addsub_ok p = true -> icanon lo -> canon m -> words s ->
+  (do x <- gen_biguint_below m s; let '(n, r) := x in do v <- iadd p lo (ifrom_u sp n); Ret (v, r))
   = omap lift_i (do x <- spec_below (val m) s; let '(c, r) := x in Ret (ival lo + c, r)).
 Proof.
-  intros Hp Hlo Hm Hs. rewrite gen_biguint_below_spec by auto.
+  intros Hsp Hp Hlo Hm Hs. rewrite gen_biguint_below_spec by auto.
   destruct (spec_below (val m) s) as [[c r]| |] eqn:Bq; cbn [omap bind]; try reflexivity.
   pose proof (spec_below_nonneg _ _ _ _ Bq Hs) as Hc0.
-  unfold lift_u; cbn [fst snd]. rewrite ifrom_u_spec by apply enc_canon. rewrite enc_val by lia.
+  unfold lift_u; cbn [fst snd]. rewrite ifrom_u_spec by (auto; apply enc_canon). rewrite enc_val by lia.
   rewrite iadd_spec by (auto using ienc_canon). rewrite ienc_val. reflexivity.
 Qed.
 
-Theorem gen_bigint_range_spec p lo hi s : addsub_ok p = true -> icanon lo -> icanon hi -> words s ->
-  gen_bigint_range p lo hi s = omap lift_i (spec_range (ival lo) (ival hi) s).
+Theorem gen_bigint_range_spec sp p lo hi s : sign_ok sp = true -> addsub_ok p = true -> icanon lo -> icanon hi -> words s ->
+  gen_bigint_range sp p lo hi s = omap lift_i (spec_range (ival lo) (ival hi) s).
 Proof.
-  intros Hp Hlo Hhi Hs. unfold gen_bigint_range, spec_range.
+  intros Hsp Hp Hlo Hhi Hs. unfold gen_bigint_range, spec_range.
   rewrite icmp_spec by auto. unfold spec_icmp. cbn [bind].
   destruct (Z.compare_spec (ival lo) (ival hi)) as [E|E|E]; cbn [is_lt assert_ bind];
     try (replace (ival hi <=? ival lo) with true by (symmetry; apply Z.leb_le; lia); reflexivity).
@@ -511,7 +511,7 @@ Proof.
     rewrite icanon_pos_mag by (auto; lia). rewrite Z0, Z.sub_0_r.
     destruct (spec_below (ival hi) s) as [[c r]| |] eqn:Bq; cbn [omap bind]; try reflexivity.
     pose proof (spec_below_nonneg _ _ _ _ Bq Hs) as Hc0.
-    unfold lift_u, lift_i; cbn [fst snd]. rewrite ifrom_u_spec by apply enc_canon.
+    unfold lift_u, lift_i; cbn [fst snd]. rewrite ifrom_u_spec by (auto; apply enc_canon).
     rewrite enc_val by lia. reflexivity.
   - rewrite irange_tail by (auto using icanon_mag). rewrite icanon_neg_mag by (auto; lia).
     replace (ival hi - ival lo) with (- ival lo) by lia. reflexivity.
@@ -561,10 +561,10 @@ Proof.
     reflexivity.
 Qed.
 
-Theorem ui_new_sample_spec p lo hi s : addsub_ok p = true -> icanon lo -> icanon hi -> words s ->
-  (do u <- ui_new p lo hi; ui_sample p u s) = omap lift_i (spec_range (ival lo) (ival hi) s).
+Theorem ui_new_sample_spec sp p lo hi s : sign_ok sp = true -> addsub_ok p = true -> icanon lo -> icanon hi -> words s ->
+  (do u <- ui_new sp p lo hi; ui_sample sp p u s) = omap lift_i (spec_range (ival lo) (ival hi) s).
 Proof.
-  intros Hp Hlo Hhi Hs. unfold ui_new, ui_sample, spec_range.
+  intros Hsp Hp Hlo Hhi Hs. unfold ui_new, ui_sample, spec_range.
   rewrite icmp_spec by auto. unfold spec_icmp. cbn [bind].
   destruct (Z.compare_spec (ival lo) (ival hi)) as [E|E|E]; cbn [is_lt assert_ bind];
     try (replace (ival hi <=? ival lo) with true by (symmetry; apply Z.leb_le; lia); reflexivity).
@@ -574,19 +574,19 @@ Proof.
   rewrite mag_ienc, enc_val by lia. rewrite Z.abs_eq by lia. reflexivity.
 Qed.
 
-Theorem ui_new_inclusive_sample_spec p lo hi s : addsub_ok p = true -> icanon lo -> icanon hi -> words s ->
-  (do u <- ui_new_inclusive p lo hi; ui_sample p u s)
+Theorem ui_new_inclusive_sample_spec sp p lo hi s : sign_ok sp = true -> addsub_ok p = true -> icanon lo -> icanon hi -> words s ->
+  (do u <- ui_new_inclusive sp p lo hi; ui_sample sp p u s)
   = omap lift_i (spec_range_inclusive (ival lo) (ival hi) s).
 Proof.
-  intros Hp Hlo Hhi Hs. unfold ui_new_inclusive, spec_range_inclusive.
+  intros Hsp Hp Hlo Hhi Hs. unfold ui_new_inclusive, spec_range_inclusive.
   rewrite icmp_spec by auto. unfold spec_icmp. cbn [bind].
   destruct (Z.compare_spec (ival lo) (ival hi)) as [E|E|E]; cbn [is_le assert_ bind];
     try (replace (ival hi <? ival lo) with true by (symmetry; apply Z.ltb_lt; lia); reflexivity);
     (replace (ival hi <? ival lo) with false by (symmetry; apply Z.ltb_ge; lia));
     rewrite iadd_spec by (auto using icanon_ione); cbn [bind]; rewrite ival_ione;
-    pose proof (ui_new_sample_spec p lo (ienc (ival hi + 1)) s Hp Hlo (ienc_canon _) Hs) as Hn;
+    pose proof (ui_new_sample_spec sp p lo (ienc (ival hi + 1)) s Hsp Hp Hlo (ienc_canon _) Hs) as Hn;
     cbn [bind] in Hn; rewrite ienc_val in Hn;
-    (destruct (ui_new p lo (ienc (ival hi + 1))) as [u| |]; cbn [bind] in *; rewrite Hn);
+    (destruct (ui_new sp p lo (ienc (ival hi + 1))) as [u| |]; cbn [bind] in *; rewrite Hn);
     unfold spec_range; (replace (ival hi + 1 <=? ival lo) with false by (symmetry; apply Z.leb_gt; lia));
     reflexivity.
 Qed.
